@@ -169,9 +169,14 @@ def run(chk, replay=None):
     chk.cov["vectors_checked"] = vecs
     chk.cov["certificates"] = {c: sum(1 for e in evs if c in e) for c in ("priv", "dep", "tri", "wit")}
     chk.cov["max_ncols"] = max(e["ncols"] for e in evs)
-    for e in evs[:: max(1, len(evs) // 5)]:
+    seen_cls = set()
+    for e in sorted(evs, key=lambda e: -e["ncols"]):
+        cls = (e["op"], _size_class(e), str(e["case"]).split("/")[0])
+        if cls in seen_cls or not e.get("k"):
+            continue
+        seen_cls.add(cls)
         chk.sample({"op": e["op"], "case": e["case"], "shape": e.get("shape"), "nrows": e["nrows"], "ncols": e["ncols"],
-                    "returned_vectors": len(e.get("k", []))})
+                    "returned_vectors": len(e.get("k", [])), "first_vector_weight": len(e["k"][0])})
     chk.assumptions += [
         "TLC, SANY, CommunityModules Json/IOUtils/SequencesExt (FoldLeft)",
         "the harness's encoding of matrices (lists of row indices per column -> the library's bit vectors / SparseMat) and of "
